@@ -93,9 +93,17 @@ pub fn run_hist(p: &HistProp, tier: &str, rep: &mut Report) {
     for (name, mk) in (p.scenarios)(tier) {
         let sc = mk();
         assert_eq!(sc.name, name, "scenario name mismatch");
-        let (st, v) = bfs(&sc, &refs, &Limits { max_states: p.max_states, deadline });
+        let (st, mut v) = bfs(&sc, &refs, &Limits { max_states: p.max_states, deadline });
+        let prelude_failed = v.iter().any(|x| x.prop == "?");
+        for x in v.iter_mut().filter(|x| x.prop == "?") {
+            x.prop = p.id.to_string();
+        }
         rep.add_stats(&sc.name, &st);
         rep.add_violations(v);
+        if prelude_failed {
+            names.push(name);
+            continue;
+        }
         // scripted long histories of this scenario
         for (sname, script) in &sc.scripts {
             let mut found: Vec<crate::engine::Violation> = Vec::new();
@@ -163,6 +171,11 @@ pub fn replay_hist(p: &HistProp, scenario: &str, hist: &[Op]) -> i32 {
     let oracles = (p.oracles)();
     let mut any = false;
     println!("replaying {} operations of scenario {} on the real code", hist.len(), scenario);
+    if let Some((sig, detail)) = crate::engine::prelude_failure(&sc) {
+        println!("VIOLATION property={} signature={}", p.id, sig);
+        println!("      {}", detail);
+        return 1;
+    }
     for k in 1..=hist.len() {
         let (w, st) = sc.replay_observed(&hist[..k]);
         println!("  {:>2}. {:<55} -> {}", k, st.op.show(), st.res.class());
